@@ -88,7 +88,7 @@ type lcSpec struct {
 }
 
 var lcKinds = []string{"close", "quit", "error", "eof", "erroreof", "werr", "badline", "qwf", "wfault"}
-var lcPlaces = []string{"reg", "after001", "burst", "slow", "txq", "stream", "flood"}
+var lcPlaces = []string{"reg", "after001", "burst", "slow", "txq", "stream", "flood", "panic"}
 var lcBasePlaces = []string{"reg", "after001", "burst", "slow", "txq"}
 var lcStreamKinds = []string{"close", "quit", "error", "erroreof", "badline"}
 var lcFloodKinds = []string{"close", "error", "eof", "erroreof", "badline"}
@@ -291,6 +291,8 @@ type lcConn struct {
 	peerShut    atomic.Bool // the peer closed its own end
 	panicked    atomic.Bool // Connect panicked or never returned: never call into the client again
 	wmu         sync.Mutex  // log entry + write of the peer are one step (several goroutines write)
+	panicID     string
+	stalled     bool // the event after a recovered handler panic was not delivered
 	streamDone  chan struct{}
 	sendDone    chan struct{}
 	failWrites  atomic.Bool // the client's writes fail from now on (pipe transport)
@@ -400,7 +402,13 @@ func (cn *lcConn) handle(cl *girc.Client, e girc.Event) {
 		cn.afterDisc++
 	}
 	slow := id == cn.slowID
+	boom := id != "" && id == cn.panicID
 	cn.mu.Unlock()
+	if boom {
+		// a foreground handler panics; Config.RecoverFunc is set, so the library recovers it
+		var m map[string]int
+		m[id] = 1
+	}
 	if slow {
 		close(cn.inHandler)
 		if !lcWaitCh(cn.release, 2*lcStepBound) {
@@ -766,6 +774,9 @@ func (cn *lcConn) run(cur *atomic.Value) lcConnResult {
 	if sp.place == "slow" {
 		cn.slowID = cn.id(sp.k)
 	}
+	if sp.place == "panic" {
+		cn.panicID = cn.id(1)
+	}
 	cur.Store(cn)
 
 	var out net.Conn
@@ -942,6 +953,36 @@ func (cn *lcConn) run(cur *atomic.Value) lcConnResult {
 			cn.waitStep(wrote)
 		}
 		cn.stimulus(nil, nil)
+	case "panic":
+		// a foreground handler panics on line 1 (recovered through Config.RecoverFunc); the
+		// dispatcher must go on: line 2 is delivered, and the connection still ends on demand
+		cn.peerLines([]string{cn.id(1), cn.id(2)})
+		got := 0
+		deadline := time.Now().Add(lcSettleBound)
+		for time.Now().Before(deadline) {
+			cn.mu.Lock()
+			got = len(cn.delivered)
+			cn.mu.Unlock()
+			if got >= 2 {
+				break
+			}
+			select {
+			case <-cn.retCh:
+				deadline = time.Now()
+			default:
+			}
+			time.Sleep(200 * time.Microsecond)
+		}
+		select {
+		case <-cn.retCh:
+		default:
+			if got < 2 {
+				// the dispatcher has not moved on from the recovered panic: the connection
+				// cannot end any more (execLoop never returns); do not sit out the full bounds
+				cn.stalled = true
+			}
+		}
+		cn.stimulus(nil, nil)
 	case "flood":
 		// an application goroutine sits in the flood delay of Client.Send when the connection
 		// ends (the session runs without AllowFlood; the limiter is primed so that the next
@@ -989,10 +1030,14 @@ func (cn *lcConn) run(cur *atomic.Value) lcConnResult {
 		cn.resumeReader()
 	}
 
+	bound := lcReturnBound
+	if cn.stalled {
+		bound = 2 * time.Second
+	}
 	select {
 	case res.err = <-done:
 		res.returned = true
-	case <-time.After(lcReturnBound):
+	case <-time.After(bound):
 		// not returned: free everything so that the process can go on. The client may be
 		// wedged on one of its locks: nothing may wait for a call into it any more.
 		cn.panicked.Store(true)
@@ -1275,7 +1320,11 @@ func lcCheckConn(cn *lcConn, res lcConnResult, first *lcConn, fresh string) []st
 		bad = append(bad, p+" (conn "+cn.letter+" "+cn.sp.String()+")")
 	}
 	if !res.returned {
-		add("no-return", "Connect did not return within %v of the stimulus", lcReturnBound)
+		if cn.stalled {
+			add("no-return", "after a recovered panic of a foreground handler the next event was not delivered within %v, and Connect did not return within 2s of the stimulus", lcSettleBound)
+		} else {
+			add("no-return", "Connect did not return within %v of the stimulus", lcReturnBound)
+		}
 		return bad
 	}
 	if !lcIn(res.class, cn.sp.allowed()) {
@@ -1358,6 +1407,20 @@ func lcCheckConn(cn *lcConn, res lcConnResult, first *lcConn, fresh string) []st
 	for _, p := range cn.tcpProblems {
 		bad = append(bad, p+" (conn "+cn.letter+" "+cn.sp.String()+")")
 	}
+	// the first lines of a connection on the wire are its registration lines and nothing else
+	for i, want := range cn.regs {
+		if i >= len(cn.recvAll) {
+			break // the connection ended during registration
+		}
+		if cn.recvAll[i] != want {
+			class := "registration-order"
+			if first != nil {
+				class = "stale-tx-next-conn"
+			}
+			add(class, "line %d on the wire is %q, want the registration line %q (first lines: %q)", i+1, cn.recvAll[i], want, cn.recvAll[:i+1])
+			break
+		}
+	}
 	// second connection: fresh tracked state, nothing of the first on the wire
 	if first != nil {
 		if cn.chansAtInit != 0 {
@@ -1401,7 +1464,8 @@ func lcRunSession(specs []lcSpec) Result {
 	log := &lcLog{}
 	var cur atomic.Value
 	cfg := girc.Config{Server: "irc.test", Port: 6667, Nick: "me", User: "user", Name: "Real Name", AllowFlood: true,
-		SASL: &girc.SASLPlain{User: "acct", Pass: "secret"}}
+		SASL:        &girc.SASLPlain{User: "acct", Pass: "secret"},
+		RecoverFunc: func(*girc.Client, *girc.HandlerError) {}}
 	for _, sp := range specs {
 		if sp.place == "flood" {
 			cfg.AllowFlood = false // the flood limiter is what the placement is about
@@ -1498,6 +1562,8 @@ func lcGenSpec(r *rand.Rand, letter string) lcSpec {
 		place = "flood" // costs a second of real time: rare
 	case x < 5:
 		place = "stream"
+	case x < 6:
+		place = "panic"
 	}
 	sp := lcSpec{kind: lcKinds[r.Intn(len(lcKinds))], place: place, ok: true}
 	sp.errtext = "E" + letter + strconv.Itoa(r.Intn(90)+10)
@@ -1574,6 +1640,15 @@ func lcFixedSessions() []Case {
 	for j, k := range lcStreamKinds {
 		cs = append(cs, Case{k + "/stream/4/4/0/Ea" + strconv.Itoa(40+j), lcStreamKinds[(j+1)%3] + "/stream/0/0/0/Eb" + strconv.Itoa(40+j)})
 	}
+	// a foreground handler has panicked (and was recovered) before the connection ends
+	for j, k := range lcKinds {
+		cs = append(cs, Case{k + "/panic/0/0/0/Ea" + strconv.Itoa(20+j), lcKinds[(j+2)%len(lcKinds)] + "/panic/0/0/0/Eb" + strconv.Itoa(20+j)})
+	}
+	// output is queued when connection 1 dies while NOTHING is queued for reading: the next
+	// connection's first lines on the wire must be its registration and nothing else
+	cs = append(cs, Case{"eof/txq/0/0/6/Ea30", "close/after001/0/0/0/Eb30/-/capls"},
+		Case{"werr/txq/0/0/4/Ea31", "quit/after001/0/0/0/Eb31"},
+		Case{"close/txq/0/0/8/Ea32", "error/after001/0/0/0/Eb32"})
 	// a Send of the application is waiting out its flood delay when the connection ends
 	for j, k := range lcFloodKinds {
 		cs = append(cs, Case{k + "/flood/0/0/0/Ea" + strconv.Itoa(50+j), "close/after001/0/0/0/Eb" + strconv.Itoa(50+j)})
@@ -1606,7 +1681,7 @@ func lcRunCase(c Case, tcp bool) Result {
 }
 
 var lcTCPKinds = []string{"close", "quit", "error", "eof", "erroreof", "badline"}
-var lcTCPPlaces = []string{"reg", "after001", "burst", "slow", "stream"}
+var lcTCPPlaces = []string{"reg", "after001", "burst", "slow", "stream", "panic"}
 
 func lcGenTCPSpec(r *rand.Rand, letter string) lcSpec {
 	for {
